@@ -52,9 +52,12 @@ class UserFunction(tdt.Function):
 
 
 
-def fn_spec(draw, d, user=True):
-    fam = draw(st.sampled_from(FAMS + (USER_FAMS[:] if user else [])))
+def fn_spec(draw, d, user=True, indicator=False):
+    fam = draw(st.sampled_from(FAMS + (USER_FAMS[:] if user else []) + (['indicator', 'indicator'] if indicator else [])))
     s = {'family': fam, 'index': draw(st.integers(0, d - 1))}
+    if fam == 'indicator':
+        a = draw(st.sampled_from([-1.0, -0.5, 0.0, -2.0]))
+        s['a'], s['b'] = a, a + draw(st.sampled_from([0.5, 1.0, 2.0, 4.0]))
     if fam == 'monomial':
         s['exponent'] = draw(st.integers(0, 4))
     elif fam == 'legendre':
@@ -71,6 +74,8 @@ def make_fn(s):
     fam, i = s['family'], s['index']
     if fam in USER_FAMS:
         return UserFunction(fam, i)
+    if fam == 'indicator':
+        return tdt.IndicatorFunction(i, s['a'], s['b'])
     if fam == 'constant':
         return tdt.ConstantFunction(i)
     if fam == 'identity':
@@ -100,6 +105,8 @@ def ref_value(s, x):
         return float(x[s['index']]) * float(x[(s['index'] + 1) % len(x)])
     if fam == 'u_maxabs':
         return max(abs(float(v)) for v in x)
+    if fam == 'indicator':
+        return 1.0 if (s['a'] <= t < s['b']) else 0.0
     if fam == 'constant':
         return 1.0
     if fam == 'identity':
@@ -159,7 +166,14 @@ def general_case(draw):
     d = draw(st.integers(1, 4))
     m = draw(st.sampled_from([1, 2, 3, 3, 5, 8]))
     p = draw(st.integers(1, 4))
-    phi = [[fn_spec(draw, d) for _ in range(draw(st.sampled_from([1, 2, 2, 3, 4])))] for _ in range(p)]
+    phi = [[fn_spec(draw, d, indicator=True) for _ in range(draw(st.sampled_from([1, 2, 2, 3, 4])))] for _ in range(p)]
+    if draw(st.sampled_from([False, False, True])):
+        # a mode made of indicator functions only, with overlapping intervals (a coarse bin and finer ones)
+        k = draw(st.integers(0, p - 1))
+        i0 = draw(st.integers(0, d - 1))
+        phi[k] = [{'family': 'indicator', 'index': i0, 'a': -2.0, 'b': 2.0}] + \
+                 [{'family': 'indicator', 'index': i0, 'a': a_, 'b': a_ + w_} for a_, w_ in
+                  draw(st.lists(st.tuples(st.sampled_from([-1.0, -0.5, 0.0]), st.sampled_from([0.5, 1.0, 2.0])), min_size=1, max_size=3))]
     return {'d': d, 'm': m, 'phi': phi, 'seed': draw(gen.SEED), 'seed2': draw(gen.SEED), 'm2': draw(st.integers(1, 6)),
             'duplicate': draw(st.sampled_from([False, False, True])), 'lag': draw(st.sampled_from([0, 1, 1, 2, 3])), 'data_form': draw(DATA_FORM)}
 
@@ -176,6 +190,8 @@ def general_labels(case):
         lab.add('mixed_families')
     if any(s['family'] in USER_FAMS for f in case['phi'] for s in f):
         lab.add('user_defined_function')
+    if any(all(s['family'] == 'indicator' for s in f) and len(f) >= 2 for f in case['phi']):
+        lab.add('indicator_only_mode')
     if case.get('duplicate') and case['m'] >= 2:
         lab.add('duplicated_snapshot')
     if len(case['phi']) == 1:
